@@ -63,6 +63,9 @@ struct Unit<T: Flt> {
     /// every call is handed input_frames_max() frames (when the signal has that many left): more
     /// than the call needs whenever the need varies from call to call
     generous: bool,
+    /// the fitted window is the end of the output, not its beginning (chunks of tens of thousands
+    /// of frames: the positions late in a chunk are the large ones)
+    fit_late: bool,
 }
 
 struct ToneOut {
@@ -76,7 +79,7 @@ struct ToneOut {
 
 impl<T: Flt> Unit<T> {
     fn new(cfg: &Cfg) -> Result<Self, String> {
-        Ok(Unit { cfg: cfg.clone(), r: cfg.build::<T>()?, dance: false, generous: false })
+        Ok(Unit { cfg: cfg.clone(), r: cfg.build::<T>()?, dance: false, generous: false, fit_late: false })
     }
 
     /// Resample x (after reset) and return the output.
@@ -85,7 +88,8 @@ impl<T: Flt> Unit<T> {
         let mut out = Vec::new();
         let mut pos = 0usize;
         let mut obuf: Vec<Vec<T>> = self.r.output_buffer_allocate(true);
-        let mut ibuf: Vec<Vec<T>> = vec![Vec::new()];
+        let nch = self.cfg.channels.max(1);
+        let mut ibuf: Vec<Vec<T>> = vec![Vec::new(); nch];
         let mut calls = 0usize;
         loop {
             if self.dance && self.cfg.kind.is_sinc() {
@@ -103,6 +107,11 @@ impl<T: Flt> Unit<T> {
             let give = if self.generous { need.max(self.r.input_frames_max()).min(x.len() - pos) } else { need };
             ibuf[0].clear();
             ibuf[0].extend(x[pos..pos + give].iter().map(|v| T::from64(*v)));
+            for (c, ch) in ibuf.iter_mut().enumerate().skip(1) {
+                // the other channels carry a different in-band tone each (the fitted channel is 0)
+                ch.clear();
+                ch.extend((pos..pos + give).map(|n| T::from64(0.7 * (0.0371 * (c as f64 + 1.0) * n as f64 + c as f64).cos())));
+            }
             let (i, o) = self.r.process_into_buffer(&ibuf, &mut obuf, None).map_err(|e| format!("{}", e))?;
             out.extend(obuf[0][..o].iter().map(|v| v.to64()));
             pos += i;
@@ -123,9 +132,14 @@ impl<T: Flt> Unit<T> {
         if y.len() < drop + 256 {
             return Err(format!("only {} output frames", y.len()));
         }
-        let n1 = (y.len() - drop).min(drop + n_fit);
-        let (amp, phase, resid_rms, resid_peak) = fit_tone(&y, w_in / r, drop, n1);
-        Ok(ToneOut { amp, phase, resid_peak, resid_rms, out_rms: rms(&y[drop..n1]), n_fit: n1 - drop })
+        let (n0, n1) = if self.fit_late {
+            let n1 = y.len() - drop;
+            (n1.saturating_sub(n_fit).max(drop), n1)
+        } else {
+            (drop, (y.len() - drop).min(drop + n_fit))
+        };
+        let (amp, phase, resid_rms, resid_peak) = fit_tone(&y, w_in / r, n0, n1);
+        Ok(ToneOut { amp, phase, resid_peak, resid_rms, out_rms: rms(&y[n0..n1]), n_fit: n1 - n0 })
     }
 }
 
@@ -369,6 +383,17 @@ impl Check for C01 {
                             c01_unit::<f32>(&mut acc, &cfg, edge, &beta, amp_tol(window), &tones, journal, meta.clone())?;
                         }
                     }
+                    // two channels carrying different signals (channel 0 is fitted): whatever the
+                    // channels share inside one call shows as the other channel's tone
+                    if os <= 16 {
+                        for kind in [Kind::SI, Kind::SO] {
+                            let mut cfg = sinc_cfg(kind, ratio, 256, l, os, interp, window, f_cutoff).with_channels(2);
+                            cfg.max_rel = 1.0;
+                            let mut m = meta.clone();
+                            m["two_channels"] = json!(true);
+                            c01_unit::<f64>(&mut acc, &cfg, edge, &beta, amp_tol(window), &tones[tones.len() - 2..], journal, m)?;
+                        }
+                    }
                     // the same stream cut into chunks whose size changes while it runs (a
                     // constructor size above twice the filter length, shrunk and restored)
                     for kind in [Kind::SI, Kind::SO] {
@@ -521,6 +546,9 @@ fn items02(tier: Tier) -> Vec<Item02> {
         }
         // tables of a million points and more
         v.push(Item02::Sinc { window: w, l: 512, cc: true, os: 2048 });
+        if matches!(w, WindowFunction::BlackmanHarris2) {
+            v.push(Item02::Sinc { window: w, l: 64, cc: true, os: 32768 });
+        }
         if !q {
             v.push(Item02::Sinc { window: w, l: 256, cc: true, os: 4096 });
         }
@@ -617,15 +645,23 @@ fn c02_sinc(acc: &mut Acc, tier: Tier, window: WindowFunction, l: usize, cc: boo
     let ccv = calculate_cutoff::<f32>(l, window);
     let f_cutoff = if cc { ccv } else { 0.8 };
     let ratios: Vec<f64> = if q { vec![0.25, 147.0 / 160.0, 2.5] } else { vec![0.25, 0.7, 147.0 / 160.0, 1.0, 160.0 / 147.0, 2.5, 8.0] };
+    // a 32 768-fold sub-filter grid with chunks of 70 000 / 80 000 frames: positions late in a
+    // chunk exceed 2^31 sub-filter steps (the fitted window lies at the end of the output)
+    let huge_grid = os >= 32768;
+    let ratios: Vec<f64> = if huge_grid { vec![0.7, 2.5] } else { ratios };
     for &ratio in &ratios {
         for (kind, max_rel) in [(Kind::SI, 1.0), (Kind::SO, 1.0), (Kind::SI, 2.0), (Kind::SO, 1.1)] {
             // the filter must not depend on the adjustable range
-            let mut cfg = sinc_cfg(kind, ratio, if kind == Kind::SI { 500 } else { 512 }, l, os, Interp::Cubic, window, f_cutoff);
+            let (chunk, interp) = if huge_grid { (if kind == Kind::SI { 70_000 } else { 80_000 }, Interp::Linear) } else { (if kind == Kind::SI { 500 } else { 512 }, Interp::Cubic) };
+            let mut cfg = sinc_cfg(kind, ratio, chunk, l, os, interp, window, f_cutoff);
             cfg.max_rel = max_rel;
             if os > 256 && max_rel != 1.0 {
                 continue;
             }
             c02_sinc_unit::<f64>(acc, &cfg, window, l, cc, ratio, journal)?;
+            if huge_grid {
+                continue;
+            }
             // single precision runs through the kernel the dispatch selects for f32; the rejection
             // figures are stated for f64, an f32 stream is held to single precision (2^-18)
             if max_rel == 1.0 {
@@ -645,6 +681,7 @@ fn c02_sinc_unit<T: Flt>(acc: &mut Acc, cfg: &Cfg, window: WindowFunction, l: us
     let req_db = -20.0 * lim.log10();
     let a = 0.8;
     let mut u = Unit::<T>::new(cfg)?;
+    u.fit_late = cfg.chunk >= 50_000;
     let stop = f_cutoff as f64 * ratio.min(1.0) + tw;
     let meta = json!({"family": "sinc", "window": window_name(window), "sinc_len": l, "cc": cc, "ratio": ratio, "T": T::NAME});
     let tag = if T::IS_F32 { ":f32" } else { "" };
